@@ -29,7 +29,7 @@ echo "suite with change:   $SUITE"
 git -C /repo apply $OUT/patch.diff || { echo "cannot apply to /repo"; exit 3; }
 cd /verif
 START=$(date +%s)
-CHK=$(./check $PID $TIER 2>&1); RC=$?
+CHK=$(VERIF_EVIDENCE_DIR=/tmp/seed_evidence VERIF_REPLAY_DIR=/tmp/seed_replays ./check $PID $TIER 2>&1); RC=$?
 END=$(date +%s)
 git -C /repo checkout -- .
 echo "check $PID $TIER: exit=$RC ($((END-START))s)"
